@@ -155,13 +155,22 @@ type recFile struct {
 	r *recorder
 }
 
-func (f *recFile) Dev() (uint64, experimentalsys.Errno)       { f.r.add("file:Dev"); return f.f.Dev() }
-func (f *recFile) Ino() (wsys.Inode, experimentalsys.Errno)   { f.r.add("file:Ino"); return f.f.Ino() }
-func (f *recFile) IsDir() (bool, experimentalsys.Errno)       { f.r.add("file:IsDir"); return f.f.IsDir() }
-func (f *recFile) IsAppend() bool                             { f.r.add("file:IsAppend"); return f.f.IsAppend() }
-func (f *recFile) SetAppend(e bool) experimentalsys.Errno     { f.r.add("file:SetAppend"); return f.f.SetAppend(e) }
-func (f *recFile) Stat() (wsys.Stat_t, experimentalsys.Errno) { f.r.add("file:Stat"); return f.f.Stat() }
-func (f *recFile) Read(b []byte) (int, experimentalsys.Errno) { f.r.add("file:Read"); return f.f.Read(b) }
+func (f *recFile) Dev() (uint64, experimentalsys.Errno)     { f.r.add("file:Dev"); return f.f.Dev() }
+func (f *recFile) Ino() (wsys.Inode, experimentalsys.Errno) { f.r.add("file:Ino"); return f.f.Ino() }
+func (f *recFile) IsDir() (bool, experimentalsys.Errno)     { f.r.add("file:IsDir"); return f.f.IsDir() }
+func (f *recFile) IsAppend() bool                           { f.r.add("file:IsAppend"); return f.f.IsAppend() }
+func (f *recFile) SetAppend(e bool) experimentalsys.Errno {
+	f.r.add("file:SetAppend")
+	return f.f.SetAppend(e)
+}
+func (f *recFile) Stat() (wsys.Stat_t, experimentalsys.Errno) {
+	f.r.add("file:Stat")
+	return f.f.Stat()
+}
+func (f *recFile) Read(b []byte) (int, experimentalsys.Errno) {
+	f.r.add("file:Read")
+	return f.f.Read(b)
+}
 func (f *recFile) Pread(b []byte, o int64) (int, experimentalsys.Errno) {
 	f.r.add("file:Pread")
 	return f.f.Pread(b, o)
@@ -174,14 +183,20 @@ func (f *recFile) Readdir(n int) ([]experimentalsys.Dirent, experimentalsys.Errn
 	f.r.add("file:Readdir")
 	return f.f.Readdir(n)
 }
-func (f *recFile) Write(b []byte) (int, experimentalsys.Errno) { f.r.add("file:Write"); return f.f.Write(b) }
+func (f *recFile) Write(b []byte) (int, experimentalsys.Errno) {
+	f.r.add("file:Write")
+	return f.f.Write(b)
+}
 func (f *recFile) Pwrite(b []byte, o int64) (int, experimentalsys.Errno) {
 	f.r.add("file:Pwrite")
 	return f.f.Pwrite(b, o)
 }
-func (f *recFile) Truncate(s int64) experimentalsys.Errno { f.r.add("file:Truncate"); return f.f.Truncate(s) }
-func (f *recFile) Sync() experimentalsys.Errno            { f.r.add("file:Sync"); return f.f.Sync() }
-func (f *recFile) Datasync() experimentalsys.Errno        { f.r.add("file:Datasync"); return f.f.Datasync() }
+func (f *recFile) Truncate(s int64) experimentalsys.Errno {
+	f.r.add("file:Truncate")
+	return f.f.Truncate(s)
+}
+func (f *recFile) Sync() experimentalsys.Errno     { f.r.add("file:Sync"); return f.f.Sync() }
+func (f *recFile) Datasync() experimentalsys.Errno { f.r.add("file:Datasync"); return f.f.Datasync() }
 func (f *recFile) Utimens(a, m int64) experimentalsys.Errno {
 	f.r.add("file:Utimens")
 	return f.f.Utimens(a, m)
@@ -203,7 +218,9 @@ func (stubFS) OpenFile(string, experimentalsys.Oflag, fs.FileMode) (experimental
 
 // okFS / okFile: wrapped values on which every method "succeeds" (errno 0) without doing anything, so that
 // a refusal observed above the wrapper can only come from the wrapper.
-type okFS struct{ experimentalsys.UnimplementedFS }
+type okFS struct {
+	experimentalsys.UnimplementedFS
+}
 
 func (okFS) OpenFile(string, experimentalsys.Oflag, fs.FileMode) (experimentalsys.File, experimentalsys.Errno) {
 	return okFile{}, 0
@@ -220,25 +237,27 @@ func (okFS) Symlink(string, string) experimentalsys.Errno       { return 0 }
 func (okFS) Readlink(string) (string, experimentalsys.Errno)    { return "", 0 }
 func (okFS) Utimens(string, int64, int64) experimentalsys.Errno { return 0 }
 
-type okFile struct{ experimentalsys.UnimplementedFile }
+type okFile struct {
+	experimentalsys.UnimplementedFile
+}
 
-func (okFile) Dev() (uint64, experimentalsys.Errno)                   { return 0, 0 }
-func (okFile) Ino() (wsys.Inode, experimentalsys.Errno)               { return 0, 0 }
-func (okFile) IsDir() (bool, experimentalsys.Errno)                   { return false, 0 }
-func (okFile) IsAppend() bool                                         { return false }
-func (okFile) SetAppend(bool) experimentalsys.Errno                   { return 0 }
-func (okFile) Stat() (wsys.Stat_t, experimentalsys.Errno)             { return wsys.Stat_t{}, 0 }
-func (okFile) Read([]byte) (int, experimentalsys.Errno)               { return 0, 0 }
-func (okFile) Pread([]byte, int64) (int, experimentalsys.Errno)       { return 0, 0 }
-func (okFile) Seek(int64, int) (int64, experimentalsys.Errno)         { return 0, 0 }
+func (okFile) Dev() (uint64, experimentalsys.Errno)                          { return 0, 0 }
+func (okFile) Ino() (wsys.Inode, experimentalsys.Errno)                      { return 0, 0 }
+func (okFile) IsDir() (bool, experimentalsys.Errno)                          { return false, 0 }
+func (okFile) IsAppend() bool                                                { return false }
+func (okFile) SetAppend(bool) experimentalsys.Errno                          { return 0 }
+func (okFile) Stat() (wsys.Stat_t, experimentalsys.Errno)                    { return wsys.Stat_t{}, 0 }
+func (okFile) Read([]byte) (int, experimentalsys.Errno)                      { return 0, 0 }
+func (okFile) Pread([]byte, int64) (int, experimentalsys.Errno)              { return 0, 0 }
+func (okFile) Seek(int64, int) (int64, experimentalsys.Errno)                { return 0, 0 }
 func (okFile) Readdir(int) ([]experimentalsys.Dirent, experimentalsys.Errno) { return nil, 0 }
-func (okFile) Write(b []byte) (int, experimentalsys.Errno)            { return len(b), 0 }
-func (okFile) Pwrite(b []byte, _ int64) (int, experimentalsys.Errno)  { return len(b), 0 }
-func (okFile) Truncate(int64) experimentalsys.Errno                   { return 0 }
-func (okFile) Sync() experimentalsys.Errno                            { return 0 }
-func (okFile) Datasync() experimentalsys.Errno                        { return 0 }
-func (okFile) Utimens(int64, int64) experimentalsys.Errno             { return 0 }
-func (okFile) Close() experimentalsys.Errno                           { return 0 }
+func (okFile) Write(b []byte) (int, experimentalsys.Errno)                   { return len(b), 0 }
+func (okFile) Pwrite(b []byte, _ int64) (int, experimentalsys.Errno)         { return len(b), 0 }
+func (okFile) Truncate(int64) experimentalsys.Errno                          { return 0 }
+func (okFile) Sync() experimentalsys.Errno                                   { return 0 }
+func (okFile) Datasync() experimentalsys.Errno                               { return 0 }
+func (okFile) Utimens(int64, int64) experimentalsys.Errno                    { return 0 }
+func (okFile) Close() experimentalsys.Errno                                  { return 0 }
 
 // ---------------------------------------------------------------------------------------------
 // fixture + snapshot (tie C)
@@ -640,6 +659,17 @@ func (w *world) fsConfig() wazero.FSConfig {
 	switch w.name {
 	case "ro-dir":
 		return c.WithReadOnlyDirMount(w.dir, "/")
+	case "ro-dir-derived":
+		// the read-only configuration is the one in use; writable configurations are DERIVED from it (for a trusted
+		// module, say) and never handed to this guest: FSConfig is immutable, deriving must not change `ro`
+		ro := c.WithReadOnlyDirMount(w.dir, "/")
+		_ = ro.WithDirMount(w.dir, "/")                            // override of the same guest path
+		_ = ro.WithDirMount(w.dir, "/rw").WithDirMount(w.dir, "/") // extension, then override
+		base := wazero.NewFSConfig().WithFSMount(os.DirFS(w.dir), "/a").WithFSMount(os.DirFS(w.dir), "/b").WithFSMount(os.DirFS(w.dir), "/c")
+		sib := base.WithReadOnlyDirMount(w.dir, "/d") // siblings appended to a base with spare capacity
+		_ = base.WithDirMount(w.dir, "/d")
+		_ = sib
+		return ro
 	case "rec-dir":
 		w.outer = &recorder{req: true}
 		w.inner = &recorder{}
@@ -1075,7 +1105,7 @@ func (w *world) pathOpenGrid(paths []string) {
 						want := ask("c17 pathopen %d %d %d %d", uint16(d), uint16(o), uint16(f), uint32(r))
 						rep.Case(fmt.Sprintf("path_open/%s/%s/%d/%d/%d/%d", w.name, p, uint16(d), uint16(o), uint16(f), uint32(r)))
 						rep.Count(fmt.Sprintf("%s:path_open:model-%s:%s", w.name, strings.Fields(want)[0], errnoClass(errno)))
-						if w.name == "ro-dir" || w.name == "rec-dir" {
+						if w.name == "ro-dir" || w.name == "rec-dir" || w.name == "ro-dir-derived" {
 							w.comparePathOpen(op, errno, want)
 						}
 						if w.outer != nil {
@@ -1172,9 +1202,9 @@ func (r *recorder) peek() []string {
 var pathPool = []string{"file.txt", "empty.txt", "sub", "sub/inner.txt", "link", "newname", "sub/newname", ".", "sub/", "../escape", "", "file.txt/x", "nodir/x"}
 
 const (
-	fdPre  = 3
-	fdFile = 4
-	fdDir  = 5
+	fdPre   = 3
+	fdFile  = 4
+	fdDir   = 5
 	fdEmpty = 6
 )
 
@@ -1319,10 +1349,11 @@ func runWorld(name string, idx int, seed int64) {
 	defer w.close()
 	r := rand.New(rand.NewSource(seed*1000003 + int64(idx)))
 	paths := map[string][]string{
-		"ro-dir":     {"file.txt", "newfile", "sub", "link", "sub/inner.txt"},
-		"rec-dir":    {"file.txt", "newfile", "sub"},
-		"gofs-osdir": {"file.txt", "newfile"},
-		"gofs-mapfs": {"file.txt", "newfile"},
+		"ro-dir":         {"file.txt", "newfile", "sub", "link", "sub/inner.txt"},
+		"ro-dir-derived": {"file.txt", "newfile", "sub"},
+		"rec-dir":        {"file.txt", "newfile", "sub"},
+		"gofs-osdir":     {"file.txt", "newfile"},
+		"gofs-mapfs":     {"file.txt", "newfile"},
 	}[name]
 	if hx.Thorough() {
 		paths = []string{"file.txt", "newfile", "sub", "link", "sub/inner.txt", "empty.txt", "sub/newfile"}
@@ -1413,7 +1444,7 @@ func main() {
 	}
 	sweepOflags()
 	sweepMethods()
-	worlds := []string{"ro-dir", "rec-dir", "gofs-osdir", "gofs-mapfs"}
+	worlds := []string{"ro-dir", "rec-dir", "gofs-osdir", "gofs-mapfs", "ro-dir-derived"}
 	var wg sync.WaitGroup
 	for i, name := range worlds {
 		copies := 1
